@@ -91,7 +91,9 @@ def run_case(op, xs, ks, sizes, params):
         index = [t0 + pd.Timedelta(seconds=i) for i in range(n)]
     else:
         index = list(range(n))
-    full = pd.DataFrame({'x': xs, 'y': [v * 2 if v == v else v for v in xs], 'k': ks}, index=index)
+    # y: the values of x rotated by one row and doubled, so that missing values sit in different rows of the two columns
+    ys = [xs[(i + 1) % n] * 2 for i in range(n)] if n else []
+    full = pd.DataFrame({'x': xs, 'y': ys, 'k': ks}, index=index)
     src = Stream()
     sdf = DataFrame(src, example=full.iloc[:0])
     try:
